@@ -256,6 +256,10 @@ func checkKeepMask(p *Program, r *Report) {
 			}
 		}
 		if !okShape {
+			// carried form: prev := values[0]; for i := 1.. { keep[i] = !equal(prev, values[i]); prev = values[i] }
+			okShape = keepMaskCarried(st.Val, ia.Index, valuesPrm, loopHeaderOf(b))
+		}
+		if !okShape {
 			bad = append(bad, "the mask entry stored at "+p.Pos(st.Pos())+" is "+abbreviate(t)+", not the comparison of the record's value with its predecessor's")
 			return
 		}
@@ -484,4 +488,96 @@ func checkEncodeIndependent(p *Program, r *Report, rule string) {
 		}
 		r.Check(len(bad) == 0, "encode."+n.Obj().Name()+".Encode returns independent memory", p.Pos(enc.Pos()), "result not reachable from the receiver", strings.Join(dedupStrings(sortStr(bad)), "; "))
 	}
+}
+
+// keepMaskCarried: v is the (in)equality of bytes.Compare/bytes.Equal applied
+// to values[idx] and a loop-carried predecessor: a phi at the loop header whose
+// entry value is values[k] for a constant k and whose back-edge value is
+// values[idx] of the same iteration (prev = values[i] on every iteration).
+func keepMaskCarried(v ssa.Value, idx ssa.Value, values *ssa.Parameter, header *ssa.BasicBlock) bool {
+	if header == nil {
+		return false
+	}
+	var call *ssa.Call
+	switch x := v.(type) {
+	case *ssa.BinOp:
+		if x.Op != token.NEQ && x.Op != token.EQL {
+			return false
+		}
+		c, ok := x.X.(*ssa.Call)
+		if !ok {
+			c, ok = x.Y.(*ssa.Call)
+		}
+		if !ok {
+			return false
+		}
+		// Compare(..) != 0, or Equal(..) == false / != true
+		if calleeIs(c, "bytes.Compare") {
+			k, isK := constInt(x.Y)
+			if !isK {
+				k, isK = constInt(x.X)
+			}
+			if !(isK && k == 0 && x.Op == token.NEQ) {
+				return false
+			}
+		} else if calleeIs(c, "bytes.Equal") {
+			bv, isB := constBool(x.Y)
+			if !isB {
+				bv, isB = constBool(x.X)
+			}
+			if !isB || (x.Op == token.EQL) == bv {
+				return false
+			}
+		} else {
+			return false
+		}
+		call = c
+	case *ssa.UnOp:
+		c, ok := x.X.(*ssa.Call)
+		if x.Op != token.NOT || !ok || !calleeIs(c, "bytes.Equal") {
+			return false
+		}
+		call = c
+	default:
+		return false
+	}
+	if len(call.Call.Args) != 2 {
+		return false
+	}
+	isCur := func(a ssa.Value) bool {
+		ld, ok := a.(*ssa.UnOp)
+		if !ok || ld.Op != token.MUL {
+			return false
+		}
+		ia, ok := ld.X.(*ssa.IndexAddr)
+		return ok && ia.X == ssa.Value(values) && stripConv(ia.Index) == stripConv(idx)
+	}
+	isCarried := func(a ssa.Value) bool {
+		ph, ok := a.(*ssa.Phi)
+		if !ok || ph.Block() != header {
+			return false
+		}
+		for i, ed := range ph.Edges {
+			if header.Dominates(header.Preds[i]) {
+				if !isCur(ed) {
+					return false
+				}
+				continue
+			}
+			ld, ok := ed.(*ssa.UnOp)
+			if !ok || ld.Op != token.MUL {
+				return false
+			}
+			ia, ok := ld.X.(*ssa.IndexAddr)
+			if !ok || ia.X != ssa.Value(values) {
+				return false
+			}
+			if _, isK := constInt(ia.Index); !isK {
+				return false
+			}
+		}
+		return true
+	}
+	a0, a1 := call.Call.Args[0], call.Call.Args[1]
+	return (isCur(a0) && isCarried(a1)) || (isCur(a1) && isCarried(a0))
 }
